@@ -5,7 +5,7 @@
    exclusion: `sound c` = conditional pointer writes (any lock, even one granting everyone) or an
    exclusive lock. *)
 From Coq Require Import List Bool Arith.
-Require Import DS.Model.Commit DS.Model.Create DS.Proofs.CommitProofs DS.Proofs.CreateProofs.
+Require Import DS.Model.CommitBase DS.Gen.GenCommit DS.Model.Commit DS.Model.Create DS.Proofs.CommitProofs DS.Proofs.CreateProofs.
 Import ListNotations.
 
 (* Starting from no table, exactly one initialisation takes effect: at most one pointer creation
@@ -35,6 +35,32 @@ Theorem C18_same_table : forall c evs, sound c -> lockkind c = Excl ->
   forall a b u u', c_pc w a = CDone (Some u) -> c_pc w b = CDone (Some u') -> u = u'.
 Proof. exact same_table_excl. Qed.
 Print Assumptions C18_same_table.
+
+(* The creation machine is the protocol the SOURCE performs: the events of one successful initialisation stand,
+   action for action, for the skeleton the translator regenerates from MetadataManager.initialize_table on every run
+   (lock; the already-initialised guard under the lock; stamp + v0 write; pointer creation -- create-if-absent where
+   the store can --; release in the `finally`), and that script is enabled from the absent table for every storage
+   configuration and yields exactly one initialisation.  Failure classes of the pointer creation, regenerated: a
+   refused create-if-absent is TableExists (the loser's v0 was never named); a failure that may have taken effect
+   (conditional-write storage, or storage whose failed writes are not guaranteed invisible) never removes the v0
+   the pointer may now name; only a guaranteed-invisible failure discards it. *)
+Theorem C18_skeleton_regenerated :
+  create_model_path = gen_create_path_cas /\ create_model_path = gen_create_path_plain
+  /\ (forall atomic, gen_create_fail true atomic FEPrecondition = CFTableExists)
+  /\ (forall casb atomic, (casb = true \/ atomic = false) -> gen_create_fail casb atomic FEError = CFKeepRaise)
+  /\ gen_create_fail false true FEError = CFDiscardRaise
+  /\ (forall c (a : aid),
+        let evs := {| ce_actor := a; ce_kind := CProbe false |}
+                   :: map (fun k => {| ce_actor := a; ce_kind := k |}) creator_events ++ [{| ce_actor := a; ce_kind := CAdopt |}] in
+        exists w', crun_strict c absent evs 0 = inl w' /\ c_creates w' = [a] /\ c_pc w' a = CDone (Some a)).
+Proof.
+  split; [reflexivity|]. split; [reflexivity|]. split; [intros []; reflexivity|]. split.
+  - intros casb atomic [H|H]; subst; [destruct atomic | destruct casb]; reflexivity.
+  - split; [reflexivity|]. intros [casb lk] a evs. subst evs. eexists.
+    destruct casb, lk; repeat (cbn; unfold updc, release, set; cbn; rewrite ?Nat.eqb_refl); (split; [reflexivity|]);
+      repeat (cbn; unfold updc; rewrite ?Nat.eqb_refl); split; reflexivity.
+Qed.
+Print Assumptions C18_skeleton_regenerated.
 
 (* Non-vacuity: CAS storage, a lock that grants everyone: creators 0 and 1 both probe "absent", both
    write a v0 file; 1's create-if-absent wins, 0's fails (TableExists); both adopt table 1. *)
